@@ -3,7 +3,7 @@
 # property, reverts, and prints one line per seed (caught / MISSED). Development aid; not registered in MANIFEST.json.
 set -u
 cd /verif
-seeds=("$@"); [ ${#seeds[@]} -eq 0 ] && seeds=($(ls seeded))
+seeds=("$@"); [ ${#seeds[@]} -eq 0 ] && seeds=($(ls seeded | grep -v "^_"))
 for s in "${seeds[@]}"; do
   SD=/verif/seeded/$s
   PID=$(python3 -c "import json;print(json.load(open('$SD/meta.json'))['property'])")
